@@ -21,7 +21,8 @@ def main(tier, seed):
     total_prop = 0
     try:
         for name, cases in C05.streams(tier, seed):
-            st = driver.run_stream(run, flat, cases, d, name, "flat_case", "flat_case_code", FLAT_BITS)
+            st = driver.run_stream(run, flat, cases, d, name, "flat_case", "flat_case_code", FLAT_BITS,
+                                   search=flat.threshold_search)
             total_prop += st["prop_fail"] + st["impl_errors"]
     except coqrun.CoqError as e:
         run.violation({"kind": "model does not evaluate", "no_longer_checks": "Cluster/FlatQ.v", "error": str(e)},
